@@ -37,9 +37,11 @@ var hangs int32
 // HangTimeout is abandoned (its goroutines stay behind) and reported as Hang with
 // the non-durably blocked goroutines of bubbles found in a full stack dump.
 func Run(t *testing.T, body func()) (res RunResult) {
-	if atomic.LoadInt32(&hangs) >= 3 {
-		// three executions of this process never came back: do not spend 45 s on each of the remaining ones
-		return RunResult{Hang: "skipped: three earlier executions of this worker hung"}
+	if atomic.LoadInt32(&hangs) >= 1 {
+		// An execution of this process never came back. Its goroutines are still there (parked on the real code's
+		// locks, holding its pools and timers): what later executions in this process show cannot be trusted - one
+		// was seen to lose response bytes - so none is run.
+		return RunResult{Hang: "skipped: an earlier execution of this worker hung"}
 	}
 	done := make(chan RunResult, 1)
 	go func() { done <- run1(t, body) }()
@@ -59,8 +61,26 @@ func hangReport() string {
 	buf := make([]byte, 4<<20)
 	buf = buf[:runtime.Stack(buf, true)]
 	var out []string
+	where := ""
 	for _, b := range strings.Split(string(buf), "\n\n") {
 		lines := strings.Split(b, "\n")
+		if where == "" && strings.Contains(b, "verif/bubble.run1.func") {
+			// the goroutine that runs the execution's body: where did it stop
+			var fs []string
+			for _, l := range lines[1:] {
+				if strings.HasPrefix(l, "\t") || strings.HasPrefix(l, "created by") || strings.HasPrefix(l, "runtime.") || strings.HasPrefix(l, "internal/") {
+					continue
+				}
+				if i := strings.LastIndex(l, "("); i > 0 {
+					l = l[:i]
+				}
+				fs = append(fs, l)
+				if len(fs) == 6 {
+					break
+				}
+			}
+			where = "; the execution itself stands in " + strings.Join(fs, " <- ")
+		}
 		m := hdrRE.FindStringSubmatch(lines[0])
 		if m == nil || !strings.Contains(m[2], "synctest bubble") || strings.Contains(m[2], "(durable)") {
 			continue
@@ -90,7 +110,7 @@ func hangReport() string {
 	if len(out) > 6 {
 		out = out[:6]
 	}
-	return "execution did not come back: goroutines blocked non-durably: " + strings.Join(out, "; ")
+	return "execution did not come back: goroutines blocked non-durably: " + strings.Join(out, "; ") + where
 }
 
 func run1(t *testing.T, body func()) (res RunResult) {
